@@ -21,6 +21,7 @@ import VaxisModel.Lemmas.VxfwBodyHover
 import VaxisModel.Lemmas.VxfwBodyX
 import VaxisModel.Lemmas.VxfwBodyRun
 import VaxisModel.Lemmas.VxfwBodyTree
+import VaxisModel.Lemmas.VxfwBodyAll
 import VaxisModel.Props.C15
 import VaxisModel.Props.C15Err
 
@@ -419,5 +420,50 @@ example :
       · trivial
       · trivial)
   exact ⟨s', h1, h2, h3, h6⟩
+
+/-! ## Round 4: callers executed WITH their callees executed -/
+
+/-- The regenerated bodies of the callees, parsed. -/
+def genCallees : Callees :=
+  ⟨parseBody Gen.VxfwBodies.hitTest, Gen.VxfwBodies.containsPoint, parseBody Gen.VxfwBodies.findPath,
+   parseBody Gen.VxfwBodies.childHasFocus, parseBody Gen.VxfwBodies.focusWidget⟩
+
+theorem genCallees_eq : genCallees = Lemmas.VxfwBodyAll.expC := by
+  unfold genCallees Lemmas.VxfwBodyAll.expC
+  rw [tree_bodies_as_expected.1, tree_bodies_as_expected.2.1, tree_bodies_as_expected.2.2, find_path_body_as_expected,
+    focus_widget_body_as_expected, Lemmas.VxfwBodyTree.parse_ht, Lemmas.VxfwBodyTree.parse_fp, Lemmas.VxfwBodyTree.parse_ch,
+    Lemmas.VxfwBody.parse_fw]
+
+/-- **`mouseHandler.update` executed from its body, with `hitTest` and `containsPoint` executed from THEIR bodies inside it**, is
+    `eMouseUpdate`: the whole hover diff — hit testing with its `uint16` arithmetic included — runs from regenerated syntax. -/
+theorem mouse_update_bodies_eq_model (e : EOracle) (fuel : Nat) (s : St) (t : STree) :
+    runMouseUpdateAll (parseBody Gen.VxfwBodies.mouseUpdate) genCallees e fuel s t = some (eMouseUpdate e fuel s t) := by
+  rw [mouse_update_body_as_expected, Lemmas.VxfwBodyX.parse_mu, genCallees_eq]
+  exact Lemmas.VxfwBodyAll.mu_all e fuel s t
+
+/-- **`focusHandler.updatePath` executed from its body, with `findPath` (→ `childHasFocus`) and the best-effort `focusWidget`
+    executed from THEIR bodies inside it**, is `eUpdatePath`: the path recomputation after a frame runs from regenerated syntax down
+    to the handler calls (inside the `focusWidget` body `app.handleCommand` is `eHandleCommand e fuel`, see
+    `handle_command_bodies_eq_model`). -/
+theorem update_path_bodies_eq_model (e : EOracle) (fuel : Nat) (s : St) (t : STree) :
+    runUpdatePathAll (parseBody Gen.VxfwBodies.updatePath) genCallees e fuel s t = some (eUpdatePath e (fuel + 1) s t) := by
+  rw [update_path_body_as_expected, Lemmas.VxfwBodyX.parse_up, genCallees_eq]
+  exact Lemmas.VxfwBodyAll.up_all e fuel s t
+
+/-- **`App.handleCommand` executed from its body, with `a.fh.focusWidget(a, cmd)` executed from ITS body inside it**, is
+    `eHandleCommand e (fuel + 1)`; the two `app.handleCommand(cmd)` calls inside that `focusWidget` body are `eHandleCommand e fuel`,
+    which by this very theorem at `fuel - 1` is again the executed body — so for every budget the model's command interpreter IS
+    the unrolling of the two executed bodies calling each other, down to the budget. -/
+theorem handle_command_bodies_eq_model (e : EOracle) (fuel : Nat) (s : St) (c : Cmd) :
+    runHandleCommandAll (parseBody Gen.VxfwBodies.handleCommand) genCallees e fuel s c = some (eHandleCommand e (fuel + 1) s c) := by
+  rw [handle_command_body_as_expected, Lemmas.VxfwBodyX.parse_hc, genCallees_eq]
+  exact Lemmas.VxfwBodyAll.hc_all e fuel s c
+
+/-- Non-vacuity: `handleCommand(FocusWidgetCmd(1))` through both executed bodies with the chain oracle (1's FocusIn handler
+    focuses 2 and asks for a redraw): the focus ends on 2, redraw is set, 4 handler calls (FocusOut 0, FocusIn 1, FocusOut 1,
+    FocusIn 2), budget not exhausted. -/
+example :
+    (runHandleCommandAll (parseBody Gen.VxfwBodies.handleCommand) genCallees (e0 C15.chainOracle) 3 (St.init 0) (.focus 1)).map
+      (fun s => (s.focused, s.redraw, s.calls, s.stuck)) = some (2, true, 4, false) := by decide +kernel
 
 end VaxisModel.Props.C15Body
